@@ -22,7 +22,7 @@ import sigtree as st
 from common import run_driver
 
 TRUSTED = [
-    'Lean 4.33.0 kernel; axioms of every theorem in Props/C19.lean within {propext, Classical.choice, Quot.sound}',
+    'Lean 4.33.0 kernel; axioms of every theorem in Props/C19*.lean within {propext, Classical.choice, Quot.sound}',
     'harness/sagemodel.py, harness/props/c19.py',
     'ECOS for the values compared across settings (1e-5 relative; statuses other than solved are inconclusive)',
 ]
